@@ -572,54 +572,239 @@ func (c *Check) synthCallers() string {
 
 func (c *Check) demanglerModes() string {
 	p := c.P
-	pk := p.Pkg("internal/symbolizer")
-	cases := func(fn string, pick func(cc *ast.CaseClause) bool) map[string]bool {
-		out := map[string]bool{}
-		for _, f := range pk.Syntax {
-			for _, d := range f.Decls {
-				fd, ok := d.(*ast.FuncDecl)
-				if !ok || fd.Name.Name != fn {
-					continue
-				}
-				ast.Inspect(fd.Body, func(n ast.Node) bool {
-					cc, ok := n.(*ast.CaseClause)
-					if !ok || !pick(cc) {
-						return true
-					}
-					for _, e := range cc.List {
-						if s, ok := litString(e); ok {
-							out[s] = true
-						}
-					}
-					return true
-				})
+	dm := p.Func("internal/symbolizer", "demanglerModeToOptions")
+	if dm == nil || len(dm.Blocks) == 0 {
+		return "demanglerModeToOptions not found"
+	}
+	mode := -1
+	for i, par := range dm.Params {
+		if bt, ok := par.Type().Underlying().(*types.Basic); ok && bt.Kind() == types.String {
+			mode = i
+		}
+	}
+	if mode < 0 {
+		return "demanglerModeToOptions has no string parameter"
+	}
+	// every value the mode can take at a call: constants assigned to it, or a computed string
+	// stored only where it was compared equal to a constant
+	vals, ok := possibleStrings(p, dm.Params[mode], 0, map[ssa.Value]bool{})
+	if !ok {
+		return "the demangler mode handed to demanglerModeToOptions is not a set of constants the checker can enumerate"
+	}
+	vals[""] = true // the zero value of the option
+	var panics []*ssa.BasicBlock
+	for _, b := range dm.Blocks {
+		for _, ins := range b.Instrs {
+			if _, isPanic := ins.(*ssa.Panic); isPanic {
+				panics = append(panics, b)
 			}
 		}
-		return out
 	}
-	handled := cases("demanglerModeToOptions", func(cc *ast.CaseClause) bool { return true })
-	assigned := cases("Symbolize", func(cc *ast.CaseClause) bool {
-		// the clause that assigns demanglerMode = d
-		found := false
-		for _, st := range cc.Body {
-			if as, ok := st.(*ast.AssignStmt); ok && len(as.Lhs) == 1 && exprStr(p.Fset, as.Lhs[0]) == "demanglerMode" {
-				found = true
+	for _, v := range sortedBoolKeys(vals) {
+		reach := reachUnder(dm, func(cond ssa.Value) int {
+			cmp, ok := cond.(*ssa.BinOp)
+			if !ok || (cmp.Op != token.EQL && cmp.Op != token.NEQ) {
+				return 0
 			}
-		}
-		return found
-	})
-	if len(handled) == 0 || len(assigned) == 0 {
-		return "switch shapes not recognised"
-	}
-	if !handled[""] {
-		return "demanglerModeToOptions has no case for the empty (default) mode"
-	}
-	for m := range assigned {
-		if !handled[m] {
-			return "Symbolize can pass demangler mode " + fmt.Sprintf("%q", m) + ", which demanglerModeToOptions does not handle"
+			var k string
+			var isK bool
+			if cmp.X == ssa.Value(dm.Params[mode]) {
+				k, isK = constString(cmp.Y)
+			} else if cmp.Y == ssa.Value(dm.Params[mode]) {
+				k, isK = constString(cmp.X)
+			}
+			if !isK {
+				return 0
+			}
+			if (k == v) == (cmp.Op == token.EQL) {
+				return 1
+			}
+			return -1
+		})
+		for _, pb := range panics {
+			if reach[pb] {
+				return "Symbolize can pass demangler mode " + fmt.Sprintf("%q", v) + ", which demanglerModeToOptions does not handle"
+			}
 		}
 	}
 	return ""
+}
+
+// possibleStrings enumerates the constant strings v can hold: constants, phis, variables and
+// struct fields assigned from such values, parameters (over all call sites) and results of
+// module functions; a computed string counts with the constants it was compared equal to,
+// provided it is stored only where one of those comparisons succeeded.
+func possibleStrings(p *Program, v ssa.Value, depth int, seen map[ssa.Value]bool) (map[string]bool, bool) {
+	out := map[string]bool{}
+	if seen[v] {
+		return out, true
+	}
+	seen[v] = true
+	if depth > 8 {
+		return nil, false
+	}
+	union := func(vals []ssa.Value) bool {
+		for _, e := range vals {
+			sub, ok := possibleStrings(p, e, depth+1, seen)
+			if !ok {
+				return false
+			}
+			for k := range sub {
+				out[k] = true
+			}
+		}
+		return true
+	}
+	switch x := v.(type) {
+	case *ssa.Const:
+		if s, ok := constString(x); ok {
+			out[s] = true
+			return out, true
+		}
+		return nil, false
+	case *ssa.Phi:
+		return out, union(x.Edges)
+	case *ssa.Parameter:
+		fn := x.Parent()
+		idx := -1
+		for i, q := range fn.Params {
+			if q == x {
+				idx = i
+			}
+		}
+		calls, okCalls := allCallSites(p, fn)
+		if idx < 0 || !okCalls || len(calls) == 0 {
+			return nil, false
+		}
+		var args []ssa.Value
+		for _, call := range calls {
+			if idx >= len(call.Common().Args) {
+				return nil, false
+			}
+			args = append(args, call.Common().Args[idx])
+		}
+		return out, union(args)
+	case *ssa.Field:
+		vals, ok := fieldValues(x.X, x.Field, 0)
+		if !ok {
+			return nil, false
+		}
+		out[""] = true // a field that was never assigned
+		return out, union(vals)
+	case *ssa.UnOp:
+		if x.Op != token.MUL {
+			return nil, false
+		}
+		if vals, ok := cellValues(x.X); ok {
+			out[""] = true
+			return out, union(vals)
+		}
+		if fa, ok := x.X.(*ssa.FieldAddr); ok {
+			if al, ok := fa.X.(*ssa.Alloc); ok {
+				if vals, ok := fieldValues(&ssa.UnOp{Op: token.MUL, X: al}, fa.Field, 0); ok {
+					out[""] = true
+					return out, union(vals)
+				}
+			}
+		}
+		return nil, false
+	}
+	// a computed string: the constants it is compared with, if every store of it happens only
+	// after one of those comparisons succeeded
+	ins, ok := v.(ssa.Instruction)
+	if !ok || v.Referrers() == nil {
+		return nil, false
+	}
+	fn := ins.Parent()
+	for _, r := range *v.Referrers() {
+		if cmp, ok := r.(*ssa.BinOp); ok && cmp.Op == token.EQL {
+			if k, ok := constString(cmp.Y); ok && cmp.X == v {
+				out[k] = true
+			}
+			if k, ok := constString(cmp.X); ok && cmp.Y == v {
+				out[k] = true
+			}
+		}
+	}
+	if len(out) == 0 {
+		return nil, false
+	}
+	reach := reachUnder(fn, func(cond ssa.Value) int {
+		cmp, ok := cond.(*ssa.BinOp)
+		if !ok || (cmp.X != v && cmp.Y != v) {
+			return 0
+		}
+		if _, isK := constString(cmp.X); !isK {
+			if _, isK2 := constString(cmp.Y); !isK2 {
+				return 0
+			}
+		}
+		switch cmp.Op {
+		case token.EQL:
+			return -1
+		case token.NEQ:
+			return 1
+		}
+		return 0
+	})
+	for _, r := range *v.Referrers() {
+		switch y := r.(type) {
+		case *ssa.Store:
+			if y.Val == v && reach[y.Block()] {
+				return nil, false
+			}
+		case *ssa.BinOp, *ssa.DebugRef:
+		case *ssa.Phi:
+			// assigned to a variable: only on edges that follow a successful comparison
+			for i, e := range y.Edges {
+				if e == v && reach[y.Block().Preds[i]] {
+					return nil, false
+				}
+			}
+		}
+	}
+	// keep only the constants with which an assignment is actually reached
+	for k := range out {
+		reachK := reachUnder(fn, func(cond ssa.Value) int {
+			cmp, ok := cond.(*ssa.BinOp)
+			if !ok || (cmp.Op != token.EQL && cmp.Op != token.NEQ) {
+				return 0
+			}
+			var c string
+			var isK bool
+			if cmp.X == v {
+				c, isK = constString(cmp.Y)
+			} else if cmp.Y == v {
+				c, isK = constString(cmp.X)
+			}
+			if !isK {
+				return 0
+			}
+			if (c == k) == (cmp.Op == token.EQL) {
+				return 1
+			}
+			return -1
+		})
+		used := false
+		for _, r := range *v.Referrers() {
+			switch y := r.(type) {
+			case *ssa.Store:
+				if y.Val == v && reachK[y.Block()] {
+					used = true
+				}
+			case *ssa.Phi:
+				for i, e := range y.Edges {
+					if e == v && reachK[y.Block().Preds[i]] {
+						used = true
+					}
+				}
+			}
+		}
+		if !used {
+			delete(out, k)
+		}
+	}
+	return out, true
 }
 
 // ---- R3: v, _ := f() returning (*T, error), then v dereferenced
